@@ -696,7 +696,7 @@ CHECK_SRC = """
 def check_study_status(self):
     joblist = []
     jobmap = {}
-    for step in self.in_progress:
+    for step in [_ for _ in self.values if _ in self.in_progress]:
         jobid = self.values[step].jobid[-1]
         joblist.append(jobid)
         jobmap[jobid] = step
